@@ -42,4 +42,4 @@ rec('Crypto', pyclass='crypto.Crypto', cipher=Rec('Cipher'), sk_e=Bytes, integri
 rec('Message', pyclass='message.Message', spi_i=Bytes, spi_r=Bytes, major=Int, minor=Int, exchange_type=Int,
     is_response=Bool, can_use_higher_version=Bool, is_initiator=Bool, message_id=Int,
     payloads=List(Rec('Payload')), encrypted_payloads=List(Rec('Payload')), crypto=Opt(Rec('Crypto')),
-    iv=Opt(Bytes))
+    iv=Opt(Bytes), protected=Bool)
